@@ -67,6 +67,7 @@ type Contract struct {
 	MayPanic  bool
 	Pure      bool
 	NoSafety  bool
+	NoPanic   bool // `nopanic`: the function's own panic statements are unreachable (checked even under nosafety)
 	Effect    string   // "", "nonblocking", "bounded": blocking-effect class (C05)
 	EffectInferred bool // Effect was proposed by inferEffects (and is checked by the function's own verification)
 	Stale     string // non-empty: the header does not match the function's signature
@@ -142,7 +143,7 @@ func (c *Contract) nilable(name string, isRecv bool) bool {
 	return c.Nilable[name]
 }
 
-var clauseKeywords = map[string]bool{"effect": true, "consumes": true, "produces": true, "nosafety": true, "invariant": true, "history": true, "atsend": true, "atcall": true, "atread": true, "nilable": true, "pure": true, "defines": true, "requires": true, "captures": true, "ensures": true, "modifies": true, "loop": true, "property": true,
+var clauseKeywords = map[string]bool{"effect": true, "consumes": true, "produces": true, "nosafety": true, "nopanic": true, "invariant": true, "history": true, "atsend": true, "atcall": true, "atread": true, "nilable": true, "pure": true, "defines": true, "requires": true, "captures": true, "ensures": true, "modifies": true, "loop": true, "property": true,
 	"inline": true, "trusted": true, "nilrecv": true, "maypanic": true, "label": true, "replay": true, "topensures": true}
 
 func (e *Engine) loadContracts(dir string, pkg *types.Package) error {
@@ -645,6 +646,8 @@ func (e *Engine) loadContractFile(path string, pkg *types.Package) error {
 		case "inline":
 			cur.Inline = true
 			cur.InlineExplicit = true
+		case "nopanic":
+			cur.NoPanic = true
 		case "trusted":
 			cur.Trusted = true
 		case "atsend":
@@ -962,6 +965,7 @@ func mergeContracts(old, c *Contract) {
 	}
 	old.Pure = old.Pure || c.Pure
 	old.NoSafety = old.NoSafety || c.NoSafety
+	old.NoPanic = old.NoPanic || c.NoPanic
 	old.MayPanic = old.MayPanic || c.MayPanic
 	old.InlineExplicit = old.InlineExplicit || c.InlineExplicit
 	old.Inline = old.InlineExplicit
